@@ -324,4 +324,11 @@ def selftest():
         V("valid-station-no-mem", IGO, "        if not vehicle_has_access:\n            return False\n        else:", "        if False:\n            return False\n        else:", rule="GD.station-search"),
         V("twin-mem-hoisted", D + "reserve_base.py", "        elif not base.membership.grant_access_to_membership(vehicle.membership):\n            msg = (",
           "        elif not bool(base.membership.grant_access_to_membership(vehicle.membership)):\n            msg = (", kind="twin"),
-    ]
+    ] + _auto()
+
+
+def _auto():
+    from ..loader import Repo
+    from .. import autovariants as av
+    return av.guard_variants(Repo(), "MEM")
+
